@@ -989,6 +989,7 @@ def stepRes (s : St) (line : String) : Option (St × String) :=
     | some t, some n => upd s (.table t n) "ok"
     | _, _ => none
   | ["res.bad", t] => t.toNat?.bind fun t => upd s (.bad t) "ok"
+  | ["res.bad", t, _] => t.toNat?.bind fun t => upd s (.bad t) "ok"      -- a directory: does not open as a table either
   | ["res.setfile", sid, ts] => sid.toNat?.bind fun sid => upd s (.setfile sid (parseIds ts)) "ok"
   | ["res.pool", i, _] => i.toNat?.bind fun i => upd s (.pool i) "ok"
   | ["res.writer", i, _] => i.toNat?.bind fun i => upd { s with resLast := s.resLast.erase i } (.writer i false) "ok"
